@@ -100,27 +100,23 @@ def imageAttrs := ["fileName", "xScale", "xyScale", "yxScale", "yScale", "xOffse
 def ePoint (q : Point) : SExp := .list [.str q.x, .str q.y, .str q.seg, .str q.smooth, .str q.name, .str q.ident]
 def ePen (q : PenRec) : SExp := .list [.str q.ident, .list (q.points.map ePoint)]
 
-def ns (n : Nat) : String := ToString.toString n
-
-def idx {α} (l : List α) : List (String × α) := l.zipIdx.map fun p => (ns p.2, p.1)
-
 def regFacts (p : String) : Reg → List Fact
   | .ok l => l.map fun i => (p ++ "/@id/" ++ i, .str "1")
   | .fail e => [(p ++ "/@regerr", .str e)]
 
-/-- `up`: every link above this object is observed (so a change reaching it reaches the root) -/
-def propFact (p : String) (up : Bool) : List Fact := [(p ++ "/@prop", fb up)]
+/-- `@prop` facts from the model's propagation lists -/
+def propFacts (l : List (String × Bool)) : List Fact := l.map fun pb => (pb.1 ++ "/@prop", fb pb.2)
 
-def dictObjFacts (p : String) (o : DictObj) (up : Bool) : List Fact :=
-  itemFacts p o.items ++ wiring p o.parent o.observed ++ propFact p (up && o.observed)
+def dictObjFacts (p : String) (o : DictObj) : List Fact :=
+  itemFacts p o.items ++ wiring p o.parent o.observed
 
-def attrObjFacts (p : String) (attrs : List String) (o : DictObj) (up : Bool) : List Fact :=
-  attrFacts p attrs o.items ++ wiring p o.parent o.observed ++ propFact p (up && o.observed)
+def attrObjFacts (p : String) (attrs : List String) (o : DictObj) : List Fact :=
+  attrFacts p attrs o.items ++ wiring p o.parent o.observed
 
-def contourFacts (p : String) (c : Contour) (up : Bool) : List Fact :=
-  wiring p c.parent c.observed ++ propFact p (up && c.observed)
+def contourFacts (p : String) (c : Contour) : List Fact :=
+  wiring p c.parent c.observed
 
-def glyphFacts (p : String) (g : Glyph) (up : Bool) : List Fact :=
+def glyphFacts (p : String) (g : Glyph) : List Fact :=
   let pens := match g.shallow with
     | some l => l
     | none => g.contours.map Contour.toPen
@@ -133,58 +129,54 @@ def glyphFacts (p : String) (g : Glyph) (up : Bool) : List Fact :=
   ++ (idx pens).map (fun (ip : String × PenRec) => (p ++ "/pen/" ++ ip.1, ePen ip.2))
   ++ [(p ++ "/pen/n", .str (ns pens.length))]
   -- after the full load
-  ++ (idx f.contours).flatMap (fun (ic : String × Contour) => contourFacts (p ++ "/c/" ++ ic.1) ic.2 up)
+  ++ (idx f.contours).flatMap (fun (ic : String × Contour) => contourFacts (p ++ "/c/" ++ ic.1) ic.2)
   ++ (idx f.components).flatMap (fun (ic : String × Component) =>
       [(p ++ "/k/" ++ ic.1, SExp.list [.str ic.2.base, .str ic.2.transformation, .str ic.2.ident])]
-      ++ wiring (p ++ "/k/" ++ ic.1) ic.2.parent ic.2.observed
-      ++ propFact (p ++ "/k/" ++ ic.1) (up && ic.2.observed))
+      ++ wiring (p ++ "/k/" ++ ic.1) ic.2.parent ic.2.observed)
   ++ [(p ++ "/k/n", .str (ns f.components.length))]
-  ++ (idx f.anchors).flatMap (fun (ic : String × DictObj) => attrObjFacts (p ++ "/a/" ++ ic.1) anchorAttrs ic.2 up)
+  ++ (idx f.anchors).flatMap (fun (ic : String × DictObj) => attrObjFacts (p ++ "/a/" ++ ic.1) anchorAttrs ic.2)
   ++ [(p ++ "/a/n", .str (ns f.anchors.length))]
-  ++ (idx f.guidelines).flatMap (fun (ic : String × DictObj) => attrObjFacts (p ++ "/g/" ++ ic.1) guidelineAttrs ic.2 up)
+  ++ (idx f.guidelines).flatMap (fun (ic : String × DictObj) => attrObjFacts (p ++ "/g/" ++ ic.1) guidelineAttrs ic.2)
   ++ [(p ++ "/g/n", .str (ns f.guidelines.length))]
   ++ regFacts p f.reg
 
-def glyphWiring (p : String) (g : Glyph) (up : Bool) : List Fact :=
+def glyphWiring (p : String) (g : Glyph) : List Fact :=
   wiring p g.parent g.observed
-  ++ wiring (p ++ "/lib") g.lib.parent g.lib.observed ++ propFact (p ++ "/lib") (up && g.lib.observed)
-  ++ wiring (p ++ "/image") g.imageObj.parent g.imageObj.observed ++ propFact (p ++ "/image") (up && g.imageObj.observed)
+  ++ wiring (p ++ "/lib") g.lib.parent g.lib.observed
+  ++ wiring (p ++ "/image") g.imageObj.parent g.imageObj.observed
   ++ [(p ++ "/tempLib/@parent", fb g.tempLib.parent)]
 
-def glyphAll (p : String) (g : Glyph) (up : Bool) : List Fact :=
-  glyphFacts p g (up && g.observed) ++ glyphWiring p g (up && g.observed) ++ propFact p (up && g.observed)
+def glyphAll (p : String) (g : Glyph) : List Fact :=
+  glyphFacts p g ++ glyphWiring p g
 
-def layerFacts (p : String) (ly : Layer) (up : Bool) : List Fact :=
-  let up' := up && ly.observed
+def layerFacts (p : String) (ly : Layer) : List Fact :=
   [(p ++ "/color", .str ly.color)]
   ++ itemFacts (p ++ "/lib") ly.lib.items ++ itemFacts (p ++ "/tempLib") ly.tempLib.items
-  ++ wiring (p ++ "/lib") ly.lib.parent ly.lib.observed ++ propFact (p ++ "/lib") (up' && ly.lib.observed)
+  ++ wiring (p ++ "/lib") ly.lib.parent ly.lib.observed
   ++ [(p ++ "/tempLib/@parent", fb ly.tempLib.parent)]
-  ++ wiring p ly.parent ly.observed ++ propFact p up'
-  ++ ly.glyphs.flatMap (fun ng => glyphAll (p ++ "/G/" ++ ng.1) ng.2 up')
+  ++ wiring p ly.parent ly.observed
+  ++ ly.glyphs.flatMap (fun ng => glyphAll (p ++ "/G/" ++ ng.1) ng.2)
   ++ [(p ++ "/G/@names", SExp.list (.atom "set" :: ly.glyphs.map (fun ng => SExp.str ng.1)))]
 
-/-- `up`: every link above the layers' link to this layer set is observed (inside a font: the font observes
-the layer set; for a layer set on its own the chain ends at the layer set) -/
-def layerSetFacts (p : String) (ls : LayerSet) (up : Bool) : List Fact :=
-  let up' := up
+def layerSetFacts (p : String) (ls : LayerSet) : List Fact :=
   [(p ++ "/order", SExp.list (ls.layers.map (fun nl => SExp.str nl.1))), (p ++ "/default", .str ls.default)]
   ++ wiring p ls.parent ls.observed
-  ++ ls.layers.flatMap (fun nl => layerFacts (p ++ "/L/" ++ nl.1) nl.2 up')
+  ++ ls.layers.flatMap (fun nl => layerFacts (p ++ "/L/" ++ nl.1) nl.2)
 
 def fontFacts (f : Font) : List Fact :=
   [("fmt", .str f.fmt), ("maps", .str f.maps), ("features", .str f.features.text)]
-  ++ wiring "features" f.features.parent f.features.observed ++ propFact "features" f.features.observed
-  ++ dictObjFacts "data" f.data true ++ dictObjFacts "images" f.images true
-  ++ dictObjFacts "groups" f.groups true ++ dictObjFacts "kerning" f.kerning true
-  ++ dictObjFacts "lib" f.lib true
+  ++ wiring "features" f.features.parent f.features.observed
+  ++ dictObjFacts "data" f.data ++ dictObjFacts "images" f.images
+  ++ dictObjFacts "groups" f.groups ++ dictObjFacts "kerning" f.kerning
+  ++ dictObjFacts "lib" f.lib
   ++ itemFacts "tempLib" f.tempLib.items ++ [("tempLib/@parent", fb f.tempLib.parent)]
   ++ itemFacts "info" (f.info.items.filter (fun kv => kv.2 ≠ pyNone))
-  ++ wiring "info" f.info.parent f.info.observed ++ propFact "info" f.info.observed
-  ++ layerSetFacts "layers" f.layers f.layers.observed
-  ++ (idx f.guidelines).flatMap (fun (ic : String × DictObj) => attrObjFacts ("fg/" ++ ic.1) guidelineAttrs ic.2 true)
+  ++ wiring "info" f.info.parent f.info.observed
+  ++ layerSetFacts "layers" f.layers
+  ++ (idx f.guidelines).flatMap (fun (ic : String × DictObj) => attrObjFacts ("fg/" ++ ic.1) guidelineAttrs ic.2)
   ++ [("fg/n", .str (ns f.guidelines.length))]
   ++ regFacts "font" f.reg
+  ++ propFacts f.propagation
 
 def okFacts (fs : List Fact) : SExp :=
   tagged "ok" [tagged "set" (fs.map fun f => .list [.str f.1, f.2])]
@@ -208,17 +200,17 @@ def roundtrip (kind : String) (obj : SExp) (wl bl : Option (List String)) (inFon
     let o ← pLayerSet obj
     -- the new layer set is `font.instantiateLayerSet()` of a new font (a layer set without a font cannot hold glyphs)
     let r := LayerSet.deser (o.ser wl bl) { parent := true, observed := false, disp := true }
-    some (result r.err (layerSetFacts "layers" r true))
+    some (result r.err (layerSetFacts "layers" r ++ propFacts (r.propagation "layers" true)))
   | "layer", _ => do
     let o ← pLayer obj
     let r := Layer.deser (o.ser wl bl)
       (if inFont then { name := o.name, parent := true, observed := true, disp := true } else {})
-    some (result r.err (layerFacts "layer" r inFont))
+    some (result r.err (layerFacts "layer" r ++ propFacts (r.propagation "layer" inFont)))
   | "glyph", _ => do
     let o ← pGlyph obj
     let r := Glyph.deser (o.ser wl bl)
       (if inFont then { name := o.name, parent := true, observed := true, disp := true } else {})
-    some (result r.reg.error (glyphAll "glyph" r inFont))
+    some (result r.reg.error (glyphAll "glyph" r ++ propFacts (r.propagation "glyph" inFont)))
   | "contour", false => do
     let o ← pPen obj
     let c : Contour := { ident := o.ident, points := o.points }
